@@ -186,6 +186,7 @@ def run(ctx: Ctx, rep: Report, tier: str) -> None:  # noqa: C901
     for f in reseq:
         _traversal(ctx, rep, f)
 
+    rendered_numbers(ctx, rep)
     # ---------------------------------------------------------------- R10.5 the number written is the number stored
     rep.rule("R10.5")
     setters = []
@@ -213,6 +214,48 @@ def run(ctx: Ctx, rep: Report, tier: str) -> None:  # noqa: C901
                 rep.violation(st.qualname, f"path [{atoms}] stores {snippet(stored) if stored is not None else 'nothing'}", "a normally returning path of the sequence setter does not store the number it was given: resequencing leaves this entry with another number", where(st), inp="AddrGroup(...ios subnet members...).resequence(10, 10)")
         if ok:
             rep.ok(st.qualname, f"every normal path stores a value derived from `{prm}`", where=where(st))
+
+
+def rendered_numbers(ctx: Ctx, rep: Report, rid: str = "R10.6") -> None:
+    """A number the resequencing stored is visible in the rendered line: the helper that renders the sequence prefix
+    returns the empty text only for 0 (no number), never for a value in 1..4294967295."""
+    rep.rule(rid)
+    smax = ctx.folder.try_const("helpers", "SEQUENCE_MAX")
+    smax = smax if isinstance(smax, int) else SEQ_MAX
+    dom = IntSet([(1, smax)])
+    n = 0
+    for f in ctx.prog.funcs:
+        if f.name != "_sequence_s" or f.cls is None:
+            continue
+        n += 1
+        rep.instance()
+        bad = None
+        for p in function_paths(ctx.cfg(f)):
+            if p.raises:
+                continue
+            r = deep_resolve(p.ret, p.env) if p.ret is not None else None
+            empty = r is None or (isinstance(r, ast.Constant) and not r.value)
+            if not empty:
+                continue
+            acc = IntSet.all()
+            undecided = False
+            for t, truth in p.atoms:
+                try:
+                    s_ = cond_to_intset(deep_resolve(t, p.env), lambda x: src(x) in ("self._sequence", "self.sequence"), lambda x: ctx.folder.fold(x, f.module))
+                except NotInterval:
+                    undecided = True
+                    continue
+                acc = acc.intersect(s_ if truth else s_.complement())
+            hidden = acc.intersect(dom)
+            if hidden != IntSet.empty() and not undecided:
+                bad = (p, hidden)
+                break
+        if bad is not None:
+            p, hidden = bad
+            rep.violation(f.qualname, f"returns '' for sequence in {hidden}", "a stored number in 1..4294967295 is rendered as no number: the rendered ACL (and its re-parse) lose it while .sequence still holds it", where(f), inp="acl.resequence(start=4294967295, step=1) on a one-line ACL")
+        else:
+            rep.ok(f.qualname, f"'' only for sequence outside 1..{smax}", where=where(f))
+    rep.require(n >= 1, "no _sequence_s renderer found")
 
 
 def _before(cfg, g: ast.If, cn: Node) -> bool:
@@ -305,6 +348,12 @@ def _traversal(ctx: Ctx, rep: Report, f: Func) -> None:  # noqa: C901
     bsrc = src(base)
     bdef = defs.get(bsrc, [None])[0] if isinstance(base, ast.Name) else base
     okbase = bdef is not None and ("self._items" in src(bdef) or "self.items" in src(bdef)) and not any(w in src(it) for w in ("reversed", "sorted", "[::-1]"))
+    # the list may not be re-bound to a filtered / reordered version of itself before the loop
+    if isinstance(base, ast.Name):
+        for extra in defs.get(bsrc, [])[1:]:
+            if isinstance(extra, (ast.ListComp, ast.GeneratorExp)) and any(g.ifs for g in extra.generators) or any(w in src(extra) for w in ("sorted(", "reversed(", "[::-1]", "filter(")) or isinstance(extra, ast.Subscript):
+                okbase = False
+                bdef = extra
     if okbase:
         rep.ok(f"{f.qualname}: for ... in {snippet(it, 50)}", f"list order of {snippet(bdef, 50)}", where=where(f, it))
     else:
